@@ -209,8 +209,24 @@ def _shard(args):
                 ctx.noise = history.Noise(ctx.rng.__class__(ctx.rng.random()))
             except Exception:      # noqa: the noise is an extra; without the effect skeleton there is none
                 ctx.noise = None
-        mod.generate(ctx, shard, nshards)
-        if shard == 0 and prop != 'C20':
+        forms_only = os.environ.get('FORMS_ONLY') == '1'     # (diagnostic: what the argument-form check alone sees)
+        if not forms_only:
+            mod.generate(ctx, shard, nshards)
+        if os.environ.get('VERIF_NO_FORMS') != '1':
+            # every documented way of writing the same call must give the same result (harness/forms.py), for the
+            # functions this property models; ten times the sampling for changed functions and their callers
+            try:
+                import forms
+                specs = list(getattr(mod, 'FUNCTIONS', []))
+                changed = set(hot.get('changed', [])) if isinstance(hot, dict) else set()
+                boost = [s_ for s_ in specs if changed and (s_ in changed or (call_closure([s_])[0] & changed))] \
+                    if scale > 1 else []
+                big = 10.0 if (tier == 'thorough' or scale > 1) else 1.0
+                forms.check(ctx, specs, 5 if tier != 'thorough' else 50, ctx.rng.__class__(ctx.rng.random()),
+                            shard, nshards, budget_s=3.0 * big, boost=boost)
+            except Exception:      # noqa: an extra; it must never turn a check into an infrastructure error
+                ctx.notes.append('argument forms: not run (%s)' % traceback.format_exc().strip().split('\n')[-1][:200])
+        if shard == 0 and prop != 'C20' and not forms_only:
             # object-history checks for the stateful classes this property's functions take or return
             import objhistory
             objhistory.check(ctx, OBJ_CLASSES.get(prop, ['Angle', 'Epoch']), n=int(120 * min(scale, 4)))
@@ -381,6 +397,9 @@ def main():
         if case.get('predicate') == 'object_history_consistent':
             import objhistory
             still, detail = objhistory.replay(case['input'])
+        elif case.get('predicate') == 'argument_forms_agree':
+            import forms
+            still, detail = forms.replay(case['input'])
         else:
             still, detail = mod.replay(case)
         log(json.dumps(detail, default=str)[:4000])
@@ -413,7 +432,7 @@ def main():
         log('[T] purity: the effect analysis rejects %d function(s) reachable from the modelled code: %s' % (
             len(impure), ', '.join(impure[:6])))
     fp = fingerprint.compare(getattr(mod, 'FUNCTIONS', []))
-    hot = fp['hot']
+    hot = dict(fp['hot'], changed=list(fp['changed']))
     scale = 1.0
     if fp['changed']:
         log('[S] source of modelled functions differs from the golden fingerprint: %s' % ', '.join(fp['changed'][:8]))
